@@ -12,6 +12,7 @@ import IbcVerif.Driver.Version
 import IbcVerif.Driver.Router
 import IbcVerif.Driver.Authz
 import IbcVerif.Driver.Merkle
+import IbcVerif.Driver.World
 open Lean
 namespace IbcVerif.Driver.Pure
 open IbcVerif.J
@@ -26,6 +27,7 @@ def handlers : List (String → Json → Option (Except String Json)) :=
   , IbcVerif.Driver.Router.handle
   , IbcVerif.Driver.Authz.handle
   , IbcVerif.Driver.Merkle.handle
+  , IbcVerif.Driver.World.handle
   ]
 
 def handle (f : String) (j : Json) : Except String Json :=
